@@ -43,6 +43,10 @@ impl Counters {
 // generation
 // ---------------------------------------------------------------------------
 
+pub fn gen_op_kind_pub(rng: &mut Rng, n_objs: usize, allow_abort: bool) -> OpKind {
+  gen_op_kind(rng, n_objs, allow_abort)
+}
+
 fn gen_op_kind(rng: &mut Rng, n_objs: usize, allow_abort: bool) -> OpKind {
   match rng.below(100) {
     0..=9 => OpKind::Source,
@@ -559,68 +563,13 @@ pub struct ConcResult {
   pub skipped: Option<String>,
 }
 
-fn written_expected(plan: &WriterPlan, truth: &[u8]) -> (bool, Vec<u8>) {
-  // model of a correct `write_all` loop over the plan
-  let len = truth.len() as u64;
-  let stop = [plan.fail_at, plan.zero_at]
-    .iter()
-    .flatten()
-    .copied()
-    .min()
-    .filter(|k| *k < len);
-  match stop {
-    Some(k) => (false, truth[..k as usize].to_vec()),
-    None => (true, truth.to_vec()),
-  }
-}
-
-fn judge_written(
-  ans: &Answer,
-  plan: &WriterPlan,
-  truth: &[u8],
-  out: &mut Vec<Violation>,
-) {
-  if let Answer::Written {
-    ok,
-    err_kind,
-    err_is_injected,
-    accepted,
-    io,
-  } = ans
-  {
-    let (exp_ok, exp_bytes) = written_expected(plan, truth);
-    let mut bad = None;
-    if *ok != exp_ok {
-      bad = Some(format!("to_writer returned ok={} but expected ok={}", ok, exp_ok));
-    } else if *accepted != exp_bytes {
-      bad = Some(format!(
-        "writer accepted {:?}, expected {:?}",
-        String::from_utf8_lossy(accepted),
-        String::from_utf8_lossy(&exp_bytes)
-      ));
-    } else if !*ok {
-      let hard_first = match (plan.fail_at, plan.zero_at) {
-        (Some(f), Some(z)) => f < z, // on a tie the simulated writer returns Ok(0) first
-        (Some(_), None) => true,
-        _ => false,
-      };
-      if hard_first && !*err_is_injected {
-        bad = Some(format!("error returned is not the injected one: {:?}", err_kind));
-      }
-      if !hard_first && err_kind.as_deref() != Some("WriteZero") {
-        bad = Some(format!("Ok(0) from the writer must surface as WriteZero, got {:?}", err_kind));
-      }
-    }
-    if io.calls_after_error > 0 {
-      bad = Some(format!("{} write call(s) after the hard error", io.calls_after_error));
-    }
-    if let Some(detail) = bad {
-      out.push(Violation {
-        kind: "writer".into(),
-        op_class: "to_writer".into(),
-        detail,
-      });
-    }
+fn judge_written(ans: &Answer, plan: &WriterPlan, truth: &[u8], out: &mut Vec<Violation>) {
+  if let Some(detail) = crate::props_c07::judge_written(ans, plan, truth) {
+    out.push(Violation {
+      kind: "writer".into(),
+      op_class: "to_writer".into(),
+      detail,
+    });
   }
 }
 
@@ -652,6 +601,11 @@ fn cached_inners(spec: &TreeSpec, out: &mut Vec<TreeSpec>) {
 /// alike? (If not, a CachedSource over `w` is history dependent even
 /// single-threaded — that is C10's finding, not a concurrency one.)
 pub fn gate_consistent(w: &TreeSpec, shards: u64) -> bool {
+  // the wrapped tree must report true chunk positions / end and attribute
+  // like its own map (composites above it consume those positions)
+  if crate::strict::w_self_inconsistency(w, shards).is_some() {
+    return false;
+  }
   let ascii = is_ascii_tree(w);
   let text = content(w).0;
   for columns in [true, false] {
@@ -684,15 +638,15 @@ pub fn gate_consistent(w: &TreeSpec, shards: u64) -> bool {
     };
     let b = run_sequential(&scn2, shards, &[(0, 0), (0, 1)], false, false);
     let keys: Vec<Key> = vec![
-      key_of(&a.answers[0][0], &m, &text, ascii),
-      key_of(&a.answers[0][3], &m, &text, ascii),
-      key_of(&b.answers[0][0], &m, &text, ascii),
+      key_of(&a.answers[0][0], &m, &text, ascii, ascii),
+      key_of(&a.answers[0][3], &m, &text, ascii, ascii),
+      key_of(&b.answers[0][0], &m, &text, ascii, ascii),
     ];
     let skeys: Vec<Key> = vec![
-      key_of(&a.answers[0][1], &s, &text, ascii),
-      key_of(&a.answers[0][2], &s, &text, ascii),
-      key_of(&a.answers[0][4], &s, &text, ascii),
-      key_of(&b.answers[0][1], &s, &text, ascii),
+      key_of(&a.answers[0][1], &s, &text, ascii, ascii),
+      key_of(&a.answers[0][2], &s, &text, ascii, ascii),
+      key_of(&a.answers[0][4], &s, &text, ascii, ascii),
+      key_of(&b.answers[0][1], &s, &text, ascii, ascii),
     ];
     if keys.iter().any(|k| *k != keys[0]) || skeys.iter().any(|k| *k != skeys[0]) {
       return false;
@@ -802,13 +756,13 @@ pub fn check_conc(
           }
         }
         let attribution = ascii[op.obj] && !gated;
-        allowed[*t][*i].insert(key_of(a, &op.kind, &texts[op.obj].0, attribution));
+        allowed[*t][*i].insert(key_of(a, &op.kind, &texts[op.obj].0, attribution, ascii[op.obj] && !gated));
       }
       if full {
         for (o, answers) in seq.tail.iter().enumerate() {
           for (k, a) in answers.iter().enumerate() {
             let attribution = ascii[o] && !gated;
-            allowed_tail[o][k].insert(key_of(a, &TAIL_OPS[k], &texts[o].0, attribution));
+            allowed_tail[o][k].insert(key_of(a, &TAIL_OPS[k], &texts[o].0, attribution, ascii[o] && !gated));
           }
         }
       }
@@ -899,7 +853,7 @@ pub fn check_conc(
       }
       if cfg.compare_answers && !cfg.skip_baselines {
         let attribution = ascii[op.obj] && !gated;
-        let k = key_of(a, &op.kind, &texts[op.obj].0, attribution);
+        let k = key_of(a, &op.kind, &texts[op.obj].0, attribution, ascii[op.obj] && !gated);
         let set = &allowed[t][i];
         // A cancelled stream is a fault, not an answer: what matters is the
         // state afterwards (later ops and the tail pass). Whether the
@@ -946,7 +900,7 @@ pub fn check_conc(
           continue;
         }
         let attribution = ascii[o] && !gated;
-        let key = key_of(a, &TAIL_OPS[k], &texts[o].0, attribution);
+        let key = key_of(a, &TAIL_OPS[k], &texts[o].0, attribution, ascii[o] && !gated);
         if !allowed_tail[o][k].contains(&key) {
           violations.push(Violation {
             kind: "state_after_run".into(),
